@@ -107,9 +107,9 @@ fn c01_p16_div_modular() {
         (Dec::Zero, _) => assert!(r == 0, "div: 0 / b = 0"),
         (Dec::Real { neg: na, m: ma, e: ea }, Dec::Real { neg: nb, m: mb, e: eb }) => {
             let (calls, n, d, q, rem) = unsafe { (G_CALLS, G_N, G_D, G_Q, G_R) };
-            assert!(calls == 1, "div calls the integer divider exactly once");
-            assert!(n == ((ma >> 4) as i64) && (ma & 0xf) == 0, "numerator handed to crate::div is the mantissa of |a|");
-            assert!(d == ((mb >> 18) as i64) && (mb & 0x3ffff) == 0, "denominator handed to crate::div is the mantissa of |b|");
+            assert!(calls == 1, "STRUCTURE: div calls the integer divider exactly once");
+            assert!(n == ((ma >> 4) as i64) && (ma & 0xf) == 0, "STRUCTURE: numerator handed to crate::div is the mantissa of |a|");
+            assert!(d == ((mb >> 18) as i64) && (mb & 0x3ffff) == 0, "STRUCTURE: denominator handed to crate::div is the mantissa of |b|");
             let e0 = (ea + 4) - (eb + 18);
             kani::cover!(r == 0x7fff);
             kani::cover!(r == 1);
@@ -134,9 +134,9 @@ fn c01_p32_div_modular() {
         (Dec::Zero, _) => assert!(r == 0, "div: 0 / b = 0"),
         (Dec::Real { neg: na, m: ma, e: ea }, Dec::Real { neg: nb, m: mb, e: eb }) => {
             let (calls, n, d, q, rem) = unsafe { (G_CALLS, G_N, G_D, G_Q, G_R) };
-            assert!(calls == 1, "div calls the integer divider exactly once");
-            assert!(n == ((ma as i64) << 28), "numerator handed to crate::lldiv is the mantissa of |a|");
-            assert!(d == ((mb >> 2) as i64) && (mb & 3) == 0, "denominator handed to crate::lldiv is the mantissa of |b|");
+            assert!(calls == 1, "STRUCTURE: div calls the integer divider exactly once");
+            assert!(n == ((ma as i64) << 28), "STRUCTURE: numerator handed to crate::lldiv is the mantissa of |a|");
+            assert!(d == ((mb >> 2) as i64) && (mb & 3) == 0, "STRUCTURE: denominator handed to crate::lldiv is the mantissa of |b|");
             let e0 = ea - eb - 30;
             kani::cover!(r == 0x7fff_ffff);
             kani::cover!(r == 1);
